@@ -74,6 +74,20 @@ for kw in ("cond", "unless"):
         pass
     except Exception as e:  # noqa: BLE001
         errors.append(f"{kw}='': raised {type(e).__name__} instead of InvalidDefinition")
+# a guard name that nothing provides is rejected — also when it happens to be the id of a state (states are not callbacks),
+# whatever values the states carry
+for values in ((None, None), (1, 2)):
+    try:
+        class StateNameAsGuardC08p(StateMachine):
+            new = State(initial=True, **({} if values[0] is None else {"value": values[0]}))
+            paid = State(final=True, **({} if values[1] is None else {"value": values[1]}))
+            pay = new.to(paid, cond="paid")
+        StateNameAsGuardC08p()
+        errors.append(f"cond='paid' (the id of a state, values {values}) was accepted as a guard")
+    except InvalidDefinition:
+        pass
+    except Exception as e:  # noqa: BLE001
+        errors.append(f"cond='paid': raised {type(e).__name__} instead of InvalidDefinition")
 for e in errors:
     print("VIOLATED:", e)
 print("ok" if not errors else f"{len(errors)} problems")
